@@ -10,14 +10,14 @@ from .lib.mir import AnchorLost
 CONFIGS_QUICK = ["A"]
 CONFIGS_THOROUGH = ["A", "R", "NOAPI"]
 TECHNIQUE = "call-graph reachability from the request-time file handler to file-system APIs (must be empty) and who-may-call of the file reads; registration shape of Dir::apply; mime literal table"
-LEVEL_TEXT = ("Decides clauses C19-a/b/c: from the request-time closure of the static file handler no function of std::fs, std::io, std::path or std::env is "
-              "reachable, and every file read sits in Dir::new / StaticFileHandler::new, reachable only from route registration -- so a request can only "
-              "select among routes registered from the start-up walk (no `..`, encoded or doubled separator can name a file outside the snapshot, later disk "
-              "changes are not served); every registration made by `Dir` goes through HandlerSet::new(route).GET(handler) and no other method, the route being "
-              "the mount route joined with `/` and the relative path segments; index.html is registered at its directory path always and at its own path "
-              "unless `html` is omitted, and at most one configured extension is stripped; the handler answers with the file bytes through with_payload "
-              "(Content-Type from the extension table, Content-Length from the same bytes); the extension table maps to well-formed, distinct-keyed media "
-              "types. Decides these clauses, not the exact served set for all directory trees.")
+LEVEL_TEXT = ('Decides clauses C19-a/b/c: from the request-time closure of the static file handler no function of std::fs, std::io, std::path or std::env is '
+              'reachable, and every file read sits in Dir::new / StaticFileHandler::new, reachable only from route registration -- so a request can only select among'
+              ' routes registered from the start-up walk (no `..`, encoded or doubled separator can name a file outside the snapshot, later disk changes are not '
+              'served); every registration made by `Dir` goes through HandlerSet::new(route).GET(handler) and no other method, the route being the mount route joined'
+              ' with `/` and the relative path segments; index.html is registered at its directory path always and at its own path unless `html` is omitted, and at '
+              'most one configured extension is stripped, by a match anchored at the end of the file name (a suffix, not the text after the first dot); the handler '
+              'answers with the file bytes through with_payload (Content-Type from the extension table, Content-Length from the same bytes); the extension table maps'
+              ' to well-formed, distinct-keyed media types. Decides these clauses, not the exact served set for all directory trees.')
 
 FS_API = r"^std::(fs|io|path|env|os)::|^<std::(fs|io|path)::|^std::sys::"
 
@@ -135,6 +135,38 @@ def c19b(ck, prog):
             h = min(inner, key=lambda x: len(loops[x]))
             ok = tr[0].bb not in f.reachable_from(tr[0].target, avoid=(h,))
     ck.ob(R, "one-extension-stripped", bool(ok), f.loc(tr[0].sp if tr else None), "" if ok else "after stripping an extension the loop over the omitted extensions continues: more than one suffix could be removed", how="truncate(..); break")
+
+
+    # the stripped text is a *suffix* of the last segment: the new length comes from a match anchored at the end
+    if len(tr) == 1:
+        d = decision.describe_deep(f, tr[0].args[1], 8)
+        d += " via " + ",".join(sorted(closure_calls(prog, f, tr[0].args[1]))) + "("
+        anchored = re.search(r"\b(strip_suffix|rsplit_once|rfind|rsplit_terminator|rsplitn)\(", d) is not None
+        ends = paths.has_fact(f, prog, tr[0].bb, lambda fa: fa.kind == "boolcall" and fa.truth and (
+            fa.call.name == "ends_with" or (fa.call.name in ("is_some_and", "is_ok_and", "map_or") and any("ends_with" in closure_calls(prog, f, a) for a in fa.call.args)))) is not None
+        first = re.search(r"\b(split_once|find|split|splitn|split_terminator|strip_prefix)\(", d) is not None
+        ok = (anchored or ends) and not (first and not anchored)
+        ck.ob(R, "extension-is-a-suffix", ok, f.loc(tr[0].sp), "" if ok else "the length the last path segment is cut to is `%s`: it does not come from a match anchored at the end of the file name "
+              "(strip_suffix / rsplit_once / rfind / ends_with), so `a.min.js` with `js` omitted is not served at `a.min`" % d[:140], how="truncate(len(strip_suffix(..))): %s" % d[:80])
+
+
+def closure_calls(prog, f, op, depth=6):
+    """names of the calls made inside closure literals that take part in computing `op`"""
+    out = set()
+    if depth <= 0:
+        return out
+    steps = f.origin(op)
+    if not steps:
+        return out
+    last = steps[-1]
+    if last[0] == "call":
+        for a in last[1].args:
+            out |= closure_calls(prog, f, a, depth - 1)
+    elif last[0] == "agg" and last[1][1].get("k") == "closure":
+        g = prog.fns.get(last[1][1]["def"])
+        if g is not None:
+            out |= {c.name for c in g.calls()}
+    return out
 
 
 def c19c(ck, prog):
